@@ -139,25 +139,6 @@ Proof.
           rewrite Nat2Z.id, repeat_map_VNum; rewrite F; reflexivity.
 Qed.
 
-(** * Flattened sequences (to address the inlined copies of a callee inside a caller) *)
-Fixpoint flat (s : stmt) : list stmt := match s with SSeq a b => flat a ++ flat b | _ => [s] end.
-Fixpoint exec_list (l : list stmt) (e : env) : pres env :=
-  match l with
-  | [] => POk e
-  | s :: t => match exec s e with POk e1 => exec_list t e1 | PErr x => PErr x end
-  end.
-Lemma exec_list_app l1 l2 e :
-  exec_list (l1 ++ l2) e = match exec_list l1 e with POk e1 => exec_list l2 e1 | PErr x => PErr x end.
-Proof.
-  revert e. induction l1 as [|s t IH]; intros e; [reflexivity|]. cbn [app exec_list].
-  destruct (exec s e); [apply IH | reflexivity].
-Qed.
-Lemma exec_flat s : forall e, exec s e = exec_list (flat s) e.
-Proof.
-  induction s; intros en; try (cbn [flat exec_list]; destruct (exec _ en); reflexivity).
-  cbn [flat exec]. rewrite exec_list_app, <- IHs1. destruct (exec s1 en); [apply IHs2 | reflexivity].
-Qed.
-
 (** the body of get_values as it is inlined (locals renamed with the prefix get_values.): items 5..7 of stack_values *)
 Definition gv_inlined : list stmt := firstn 3 (skipn 5 (flat src_stack_values)).
 
